@@ -61,7 +61,7 @@ static int is_xor(int be) { return be == EC_BACKEND_FLAT_XOR_HD; }
 static int shapes_km(struct shape *out, int be, int nmax)
 {
     int c = 0;
-    for (int n = 2; n <= nmax; n++) for (int k = 1; k < n; k++) { out[c].be = be; out[c].k = k; out[c].m = n - k; out[c].hd = n - k; c++; }
+    for (int n = 2; n <= nmax; n++) for (int k = 1; k < n; k++) { out[c].be = be; out[c].k = k; out[c].m = n - k; out[c].hd = n - k; out[c].wv = 0; c++; }
     return c;
 }
 static int shapes_xor(struct shape *out)
@@ -72,7 +72,7 @@ static int shapes_xor(struct shape *out)
         for (int i = 0; i < xor_golden_count(); i++) {
             struct xor_shape s = xor_golden_get(i);
             if (s.k + s.m != n) continue;
-            out[c].be = EC_BACKEND_FLAT_XOR_HD; out[c].k = s.k; out[c].m = s.m; out[c].hd = s.hd; c++;
+            out[c].be = EC_BACKEND_FLAT_XOR_HD; out[c].k = s.k; out[c].m = s.m; out[c].hd = s.hd; out[c].wv = 0; c++;
         }
     return c;
 }
